@@ -19,13 +19,13 @@ def stdinExprs (conf : List ConfBlock) : List Expr :=
 def sessionHead (env : PEnv) (orc : EvalOracles) (input : Bytes) (expr : Expr) (st : MainSt) : Prog (MainSt × Maildir) :=
   (maildirStdin env input).bind fun x =>
     if x.2.1 = true then Prog.ret ({ st with error := true }, x.1)
-    else walk env orc expr 64 x.1
+    else walk env orc expr (stdinFuel env) x.1
       (match x.2.2 with
        | some n => { st with files := st.files.put x.1.path n input }
        | none => st)
 
 def session (env : PEnv) (orc : EvalOracles) (input : Bytes) (expr : Expr) (st : MainSt) : Prog MainSt :=
-  (sessionHead env orc input expr st).bind fun y => (closeStdin y.2).bind fun _ => Prog.ret y.1
+  (sessionHead env orc input expr st).bind fun y => (closeStdin (stdinFuel env) y.2).bind fun fo => Prog.ret (orFuel y.1 fo)
 
 def sessions (env : PEnv) (orc : EvalOracles) (input : Bytes) : List Expr → MainSt → Prog MainSt
   | [], st => Prog.ret st
@@ -82,7 +82,7 @@ def stdinHead (env : PEnv) (orc : EvalOracles) (expr : Expr) (files : Files) (in
 
 /-- The cleanup and the exit status. -/
 def stdinFinish (env : PEnv) (files : Files) : Option (MainSt × Maildir) → Prog (Nat × MainSt)
-  | some y => (closeStdin y.2).bind fun _ => Prog.ret (exitStatus env y.1, y.1)
+  | some y => (closeStdin (stdinFuel env) y.2).bind fun fo => Prog.ret (exitStatus env (orFuel y.1 fo), orFuel y.1 fo)
   | none => Prog.ret (exitStatus env { st0 files with error := true }, { st0 files with error := true })
 
 theorem mainP_stdin (env : PEnv) (orc : EvalOracles) (conf : List ConfBlock) (files : Files) (input : Bytes) (expr : Expr)
